@@ -50,6 +50,7 @@ type echoLog struct {
 }
 
 type echoUpstream struct {
+	healthDelay time.Duration // how long a health check takes (set before use)
 	name   string
 	ln     net.Listener
 	mu     sync.Mutex
@@ -81,6 +82,9 @@ func (u *echoUpstream) URL() string { return "http://" + u.ln.Addr().String() }
 // query parameters understood: size, type, cc (max-age seconds, 0 none), v (version salt), status
 func (u *echoUpstream) handle(w http.ResponseWriter, r *http.Request) {
 	if r.URL.Path == "/health" {
+		if u.healthDelay > 0 {
+			time.Sleep(u.healthDelay)
+		}
 		w.WriteHeader(200)
 		return
 	}
@@ -285,6 +289,34 @@ func (p *pikeProc) update(cfg []byte, timeout time.Duration) error {
 		time.Sleep(5 * time.Millisecond)
 	}
 	return fmt.Errorf("no reload acknowledgement within %s", timeout)
+}
+
+// write replaces the configuration file's content in place without waiting for anything
+func (p *pikeProc) write(cfg []byte) error {
+	f, err := os.OpenFile(p.cfgFile, os.O_WRONLY, 0o600)
+	if err != nil {
+		return err
+	}
+	_, err = f.WriteAt(cfg, 0)
+	_ = f.Close()
+	return err
+}
+
+// settle waits until at least one reload has been acknowledged since `before` and no further one for `quiet`
+func (p *pikeProc) settle(before int, quiet, timeout time.Duration) bool {
+	deadline := time.Now().Add(timeout)
+	last, lastChange := p.reloadCount(), time.Now()
+	for time.Now().Before(deadline) {
+		n := p.reloadCount()
+		if n != last {
+			last, lastChange = n, time.Now()
+		}
+		if n > before && time.Since(lastChange) >= quiet {
+			return true
+		}
+		time.Sleep(10 * time.Millisecond)
+	}
+	return false
 }
 
 func (p *pikeProc) alive() bool {
